@@ -165,10 +165,27 @@ package cmd
 //@     invariant [only_absent_names_collected] compmap != nil && (forall k int :: {spectips[k]} 0 <= k && k < len(spectips) ==> !has(compmap, spectips[k]))
 //@     step [a_reference_tip_is_collected_exactly_when_its_name_is_absent] len(next(spectips)) == len(spectips) + ((len(n.neigh) == 1 && !has(compmap, n.name)) ? 1 : 0) && ((len(n.neigh) == 1 && !has(compmap, n.name)) ==> next(spectips)[len(spectips)] == n.name)
 
-// reads one name per line (thin)
+// parseTipsFile / parseStringFile / Readln (property C06): every line of the file, however long, is read whole and split
+// at commas; the names are returned in file order; reading stops at the first line that cannot be read
 //@ func cmd.parseTipsFile
+//@   flag noframe
 //@   allocates []string, iface
 //@   assigns nothing
+//@   call cmd.parseStringFile [the_file_the_caller_names] a0 == file
+//@ func cmd.parseStringFile
+//@   flag noframe
+//@   flag countcalls
+//@   allocates []string, iface, bufio.Reader
+//@   assigns nothing
+//@   call io/utils.GetReader [the_file_the_caller_names] a0 == file
+//@   call cmd.Readln [every_line_is_read_whole_through_the_line_reader_of_that_file] a0 == ifilereader && err == nil
+//@   call strings.Split [a_line_is_split_at_commas] a0 == line && a1 == ","
+//@   loop 1
+//@     step [one_more_line_is_read_after_each_line_taken] ghost(ncalls_Readln) == atHead(ghost(ncalls_Readln)) + 1 && ghost(ncalls_Split) == atHead(ghost(ncalls_Split)) + 1
+//@ func cmd.Readln
+//@   flag noframe
+//@   requires r != nil
+//@   return [without_a_read_error_the_line_is_complete_however_long_it_is] err == nil ==> !isPrefix
 
 //@ func cmd.pruneCmd.RunE
 //@   flag noframe
